@@ -3,6 +3,8 @@ package PKG
 // C19: debugger stop rule (step / next / finish / continue).
 
 import (
+	"go/token"
+
 	"github.com/cosmos72/gomacro/base"
 )
 
@@ -175,3 +177,56 @@ func VH_C19_singleStep_interrupt() {
 // the stop rule compares call depths: the depth bookkeeping of frames is part of it (shared with C06)
 func VH_C19_callDepth_onCall()   { VH_C06_allocate() }
 func VH_C19_callDepth_onReturn() { VH_C06_free() }
+
+type vhStepDbg struct {
+	at *int
+	op DebugOp
+}
+
+func (d vhStepDbg) Breakpoint(ir *Interp, env *Env) DebugOp { return d.op }
+func (d vhStepDbg) At(ir *Interp, env *Env) DebugOp {
+	*d.at++
+	if *d.at > 60 {
+		panic("runaway: the debugger keeps being consulted") // makes non-termination a replayable failure
+	}
+	return d.op
+}
+
+// single-stepping through a whole function body that ends without an explicit return statement:
+// the function must return after its last statement, every statement runs once, results are unaffected
+func VH_C19_stepToEndOfFunction() {
+	n := 1 + vhPick("statements", 4)
+	run := vhDebugRun()
+	at := 0
+	answers := []DebugOp{DebugOpStep, {Depth: 2}, {Depth: 1}}
+	run.Debugger = vhStepDbg{at: &at, op: answers[vhPick("command given at every stop", 3)]} // step, next, finish (function at depth 1)
+	run.Signals.Debug = base.SigDebug
+	run.DebugDepth = MaxInt
+	env := &Env{Run: run, CallDepth: 1, DebugComp: vhComp()}
+	executed, inorder := 0, true
+	list := make([]Stmt, n)
+	for i := 0; i < n; i++ {
+		i := i
+		list[i] = func(env *Env) (Stmt, *Env) {
+			if executed != i {
+				inorder = false
+			}
+			executed++
+			if executed > 60 {
+				panic("runaway: statements keep running")
+			}
+			env.IP++
+			return env.Code[env.IP], env
+		}
+	}
+	code := &Code{List: list, DebugPos: make([]token.Pos, n)}
+	f := code.Exec()
+	var rec interface{}
+	func() {
+		defer func() { rec = recover() }()
+		f(env)
+	}()
+	vhAssert(rec == nil, "a function stepped through to its end returns")
+	vhAssert(executed == n && inorder, "under the debugger every statement still runs exactly once, in order")
+	vhReach("end")
+}
